@@ -175,6 +175,14 @@ func (t *Dense) WriteCSV(w io.Writer, formats ...string) (err error) {
 
 const gobEncodeRaw = `// GobEncode implements gob.GobEncoder
 func (t *Dense) GobEncode() (p []byte, err error){
+	// a view's storage window holds more than the view's elements, and a lazily transposed tensor is only described by
+	// its pre-transpose access pattern, neither of which the wire format (shape, strides, order, raw data) can express:
+	// write such a tensor by its logical content
+	if t.IsMaterializable() {
+		if m, ok := t.Materialize().(*Dense); ok && m != t {
+			return m.GobEncode()
+		}
+	}
 	var buf bytes.Buffer
 	encoder := gob.NewEncoder(&buf)
 
@@ -447,6 +455,14 @@ var fbEncodeDecodeRaw = `// FBEncode encodes to a byte slice using flatbuffers.
 //
 // Only natively accessible data can be encided
 func (t *Dense) FBEncode() ([]byte, error) {
+	// a view's storage window holds more than the view's elements, and a lazily transposed tensor is only described by
+	// its pre-transpose access pattern, neither of which the wire format (shape, strides, order, raw data) can express:
+	// write such a tensor by its logical content
+	if t.IsMaterializable() {
+		if m, ok := t.Materialize().(*Dense); ok && m != t {
+			return m.FBEncode()
+		}
+	}
 	builder := flatbuffers.NewBuilder(1024)
 
 	fb.DenseStartShapeVector(builder, len(t.shape))
@@ -567,6 +583,14 @@ func (t *Dense) FBDecode(buf []byte) error {
 
 var pbEncodeDecodeRaw = `// PBEncode encodes the Dense into a protobuf byte slice.
 func (t *Dense) PBEncode() ([]byte, error) {
+	// a view's storage window holds more than the view's elements, and a lazily transposed tensor is only described by
+	// its pre-transpose access pattern, neither of which the wire format (shape, strides, order, raw data) can express:
+	// write such a tensor by its logical content
+	if t.IsMaterializable() {
+		if m, ok := t.Materialize().(*Dense); ok && m != t {
+			return m.PBEncode()
+		}
+	}
 	var toSerialize pb.Dense
 	toSerialize.Shape = make([]int32, len(t.shape))
 	for i, v := range t.shape {
